@@ -46,6 +46,21 @@ def order_preserving_defs(fn, name, at, param, extra_ok=()):
             if isinstance(v, ast.List) and len(v.elts) == 1 and isinstance(v.elts[0], ast.Name):
                 work.append((v.elts[0].id, d))
                 continue
+            if isinstance(v, ast.IfExp):
+                # both outcomes must be order preserving: examine each as if it were assigned alone
+                alts = [v.body, v.orelse]
+            else:
+                alts = [v]
+            handled = True
+            for v in alts:
+                r_ = _order_step(fn, v, d, work, extra_ok)
+                if r_ is not True:
+                    if r_ is False:
+                        return False, '`%s` re-orders or de-duplicates the list' % norm_stmt(d.ast)
+                    handled = False
+            if handled:
+                continue
+            return None, 'unrecognised definition `%s`' % norm_stmt(d.ast)
             if isinstance(v, ast.Name):
                 work.append((v.id, d))
                 continue
@@ -71,6 +86,31 @@ def order_preserving_defs(fn, name, at, param, extra_ok=()):
                 and c.func.attr in ('sort', 'reverse'):
             return False, '`%s` re-orders the list in place' % norm_stmt(c)
     return True, None
+
+
+def _order_step(fn, v, d, work, extra_ok):
+    """True: order preserving (work extended), False: re-ordering, None: unrecognised."""
+    if isinstance(v, ast.List) and len(v.elts) == 1 and isinstance(v.elts[0], ast.Name):
+        work.append((v.elts[0].id, d))
+        return True
+    if isinstance(v, ast.Name):
+        work.append((v.id, d))
+        return True
+    if isinstance(v, ast.Call):
+        f = dotted(v.func)
+        if f in REORDERING or (f and f.split('.')[-1] in ('unique', 'sort', 'argsort')):
+            return False
+        if f == 'range':
+            return True
+        if f in ('list', 'tuple') and len(v.args) == 1 and isinstance(v.args[0], ast.Name):
+            work.append((v.args[0].id, d))
+            return True
+        if f and f.endswith('._name_to_index') and len(v.args) == 1 and isinstance(v.args[0], ast.Name):
+            work.append((v.args[0].id, d))
+            return True
+    if any(sym.norm(v) == sym.norm(e) for e in extra_ok):
+        return True
+    return None
 
 
 def check_order(fn, rule, inst, name, at, param, extra_ok=()):
@@ -359,7 +399,8 @@ def to_mef_all(cx, want=('GUARD', 'PAIR', 'WRITESET', 'SAMELAW')):
     cdef = copy_def(cx, fn, RV)
     # position form of the requested channels: defined as data._name_to_index(channels) (or channels itself for plain arrays)
     ci = [st.targets[0].id for st in fn.stmts(ast.Assign) if isinstance(st.targets[0], ast.Name)
-          and sym.norm(st.value) == sym.norm('%s._name_to_index(channels)' % data)]
+          and sym.norm(st.value) in (sym.norm('%s._name_to_index(channels)' % data),
+                                     sym.norm("%s._name_to_index(channels) if hasattr(%s, '_name_to_index') else channels" % (data, data)))]
     cx.need(len(ci) == 1, 'transform.to_mef: no `<x> = data._name_to_index(channels)`')
     CI = ci[0]
     if 'GUARD' in want:
